@@ -17,7 +17,7 @@ PROP = {
                    "or for the 10^p scale within |t|*2^-51+2^-10 of, a half-integer are not explored (tie breaking and the single "
                    "double rounding of x*10^p are left unspecified by the property)"),
     "technique": "runtime monitoring: differential D-API vs 64-bit API on independently scaled and rounded inputs, bit-exact",
-    "rule": ("case i: API class by i mod 100 (ClipperD paths 26, ClipperD tree 18, open-small-triangle-biased ClipperD 8, BooleanOp "
+    "rule": ("case i: API class by i mod 100 (ClipperD paths 28, ClipperD tree 19, open-small-triangle-biased ClipperD 5, BooleanOp "
              "family 10, InflatePaths 13, RectClip 7, RectClipLines 5, TrimCollinear 7, Minkowski 6); precision -8..8 (15% at the "
              "default 2); inputs are integers n on a decimal grid 10^-k, k within precision-2..precision+3 (so 0..5 digits beyond "
              "the precision grid are rounded away), |n/10^k*scale| below a magnitude class 2^6..2^51; scenes from gp_candidate (7 "
